@@ -66,11 +66,14 @@ type fnCtx struct {
 	oldWrites    map[string]bool
 	locWrites    map[string][]string
 	curLoopState *State
+	sliceBase    map[string]sliceBaseRec
 	locals       map[string]Val
 	localIsAddr  map[string]bool
 	globalVals map[*ssa.Global]Val
 	globalSyms map[string]*ssa.Global
 }
+
+type sliceBaseRec struct{ off, delta string }
 
 type loopInfo struct {
 	header *ssa.BasicBlock
